@@ -24,6 +24,7 @@ H=/tmp/evalh
 rm -rf $H; mkdir -p $H; rsync -a --exclude target /verif/harness/ $H/
 sed -i "s#/repo/crates#$WT/crates#g" $H/Cargo.toml $H/src/tui_loop.rs
 export CARGO_TARGET_DIR=/tmp/evalh-target
+export VERIF_NO_GUIDED=1
 (cd $H && cargo build --release --offline >"$OUT/build.log" 2>&1) || { echo "harness build failed"; tail -5 "$OUT/build.log"; exit 2; }
 RES=""
 for id in "$@"; do
